@@ -50,9 +50,11 @@ BadKeys == CASE BadPkR = "all" -> SmallOrderEncodings \cup OtherEncodings
 
 SmallStrings == {<<>>, Lit(<<0>>), Lit(<<97>>), Lit(<<97, 0>>), Lit(<<0, 97>>), Lit(<<97, 97>>)}
 LeafStrings(n) == {<<>>, Leaf(n \o "a", 1), Leaf(n \o "b", 32), Leaf(n \o "c", 65)}
-InfoVals  == IF Vals = "small" THEN SmallStrings ELSE LeafStrings("info")
-PskVals   == IF Vals = "small" THEN SmallStrings ELSE LeafStrings("psk")
-PskIdVals == IF Vals = "small" THEN SmallStrings ELSE LeafStrings("pskid")
+LongStrings(n) == {<<>>, Leaf(n \o "1", 1), Leaf(n \o "65535", 65535), Leaf(n \o "65536", 65536), Leaf(n \o "70000", 70000)}
+ValsOf(n) == CASE Vals = "small" -> SmallStrings [] Vals = "long" -> LongStrings(n) [] OTHER -> LeafStrings(n)
+InfoVals  == ValsOf("info")
+PskVals   == ValsOf("psk")
+PskIdVals == ValsOf("pskid")
 PskPairs  == {pp \in PskVals \X PskIdVals : (pp[1] = <<>>) = (pp[2] = <<>>)}
 
 Suites == KemSet \X KdfSet \X AeadSet
@@ -65,9 +67,11 @@ SP(su, mo, inf, pp) ==
      pkS |-> IF mo \in AuthModes THEN KP("S1", su[1]).pk ELSE <<>>,
      rng |-> Rng("E1", su[1])]
 PairsFor(mo) == IF mo \in PskModes THEN PskPairs ELSE {<<<<>>, <<>>>>}
-OneInfo == IF Vals = "small" THEN Lit(<<97>>) ELSE Leaf("infob", 32)
+OneInfo == CASE Vals = "small" -> Lit(<<97>>) [] Vals = "long" -> Leaf("info70000", 70000) [] OTHER -> Leaf("infob", 32)
 OnePair(mo) == IF mo \in PskModes
-               THEN (IF Vals = "small" THEN <<Lit(<<97, 0>>), Lit(<<0>>)>> ELSE <<Leaf("pskb", 32), Leaf("pskidc", 65)>>)
+               THEN (CASE Vals = "small" -> <<Lit(<<97, 0>>), Lit(<<0>>)>>
+                       [] Vals = "long" -> <<Leaf("psk65536", 65536), Leaf("pskid65535", 65535)>>
+                       [] OTHER -> <<Leaf("pskb", 32), Leaf("pskidc", 65)>>)
                ELSE <<<<>>, <<>>>>
 SenderParams ==
     IF Shape = "one"
@@ -153,15 +157,17 @@ MC_SetupRMenu(cx) ==
     ELSE {[c |-> "r", p |-> v] : v \in UNION {Variant(cx["s"].origin, k) : k \in Perturb}}
          \cup (IF "i" \in DOMAIN cx THEN {[c |-> "r", p |-> VictimOf(cx["s"].origin, cx["i"].origin)]} ELSE {})
 
-PtOfN(n)  == Leaf("pt" \o ToString(n), <<29, 0, 1, 16, 17>>[(n % 5) + 1])
-AadOfN(n) == Leaf("aad" \o ToString(n), <<7, 0, 16, 1, 20>>[(n % 5) + 1])
+PtOfN(n)  == Leaf("pt" \o ToString(n), IF Vals = "long" THEN <<70000, 0, 65536>>[(n % 3) + 1] ELSE <<29, 0, 1, 16, 17>>[(n % 5) + 1])
+AadOfN(n) == Leaf("aad" \o ToString(n), IF Vals = "long" THEN <<0, 70000, 65535>>[(n % 3) + 1] ELSE <<7, 0, 16, 1, 20>>[(n % 5) + 1])
 MC_PtMenu(n)  == {PtOfN(n)}
 MC_AadMenu(n) == {AadOfN(n)}
 
 MC_DeliveryMenu(snt) ==
     UNION {{[k |-> "msg", s |-> c, i |-> i, j |-> 0, n |-> 0] : i \in 1..Len(snt[c])} : c \in DOMAIN snt}
 
-MC_ExportMenu == {<<<<>>, 32>>, <<Leaf("ectx", 11), 32>>, <<Lit(<<0>>), 16>>}
+MC_ExportMenu == IF Vals = "long"
+                 THEN {<<Leaf("ectx70000", 70000), 32>>, <<Leaf("ectx65536", 65536), 8160>>, <<<<>>, 70000>>, <<<<>>, 65536>>}
+                 ELSE {<<<<>>, 32>>, <<Leaf("ectx", 11), 32>>, <<Lit(<<0>>), 16>>}
 
 NoMenu(x) == {}
 NoMenu2(x, y) == {}
